@@ -320,6 +320,9 @@ class SchedLock:
         if tid is None or not self.real:
             return True
         s.yield_point(tid, None, None, True)
+        if not blocking and self.owner is not None and self.owner != tid:
+            s.contention += 1
+            return False
         while self.owner is not None and self.owner != tid:
             s.contention += 1
             s.state[tid] = 'blocked'
